@@ -207,15 +207,25 @@ Definition json_start (c : N) : bool :=
 
 (* SmellsLike: IsJWT and IsUUID are the modelled recognisers; the sniffers of the other rows
    (IsASN1, IsBase64ASN1, IsMixedPEM) and the other parsers stay parameters *)
-Definition jwt_sniff (J : bytes -> jres) (other : bytes -> bytes -> bool) (n d : bytes) : bool :=
+Definition jwt_sniff_with (uuid : bytes -> bool) (J : bytes -> jres) (other : bytes -> bytes -> bool) (n d : bytes) : bool :=
   if bytes_eqb n (bs "IsJWT") then is_jwt J d
-  else if bytes_eqb n (bs "IsUUID") then Model.Uuid.is_uuid d
+  else if bytes_eqb n (bs "IsUUID") then uuid d
   else other n d.
+Definition jwt_sniff := jwt_sniff_with Model.Uuid.is_uuid.
 Definition jwt_parse (J : bytes -> jres) (other : bytes -> bytes -> result info) (n d : bytes) : result info :=
   if bytes_eqb n (bs "JWTData") then jwt_data J d else other n d.
 Definition inspect_jwt (J : bytes -> jres) (other_sniff : bytes -> bytes -> bool)
     (other_parse : bytes -> bytes -> result info) (name data : bytes) : result info :=
   Model.Dispatch.inspect (jwt_sniff J other_sniff) (jwt_parse J other_parse) name data.
+
+(* for the case runner: the same recogniser with a short cut that is proved to change nothing
+   (Proofs/JwtDispatch.v: a text with a '.' is no UUID); Model/Uuid.v reverses the text twice with
+   List.rev, which is quadratic *)
+Definition is_uuid_quick (d : bytes) : bool :=
+  if existsb (N.eqb dot) d then false else Model.Uuid.is_uuid d.
+Definition inspect_jwt_quick (J : bytes -> jres) (other_sniff : bytes -> bytes -> bool)
+    (other_parse : bytes -> bytes -> result info) (name data : bytes) : result info :=
+  Model.Dispatch.inspect (jwt_sniff_with is_uuid_quick J other_sniff) (jwt_parse J other_parse) name data.
 
 (* ---- the code before the repairs (for the refutations) ---- *)
 (* str / sigAlg / unixTime returned "" for "not shown"; unixTime accepted strings only *)
